@@ -186,6 +186,31 @@ CLAIMED = {
              "whole import is not proved (component theorems + correspondence).",
         technique="Coq proof (relation-triple, min/max extent, flag and collision theorems on the importer model) + differential correspondence with a direct spec check",
         design="4 (C03)"),
+    "C10": dict(
+        text="The property is a refinement claim; the reference model is the machine of Model/Machine.v (state = committed "
+             "file content incl. the autoincrements table, the open object's live counters, the .bak content; operations "
+             "update(features, strategy, checklines, failure position of the source, make_backup), delete(ids), add_relation, "
+             "close+reopen), built on the importer model already proved for C02/C04/C05. Coq theorems (Properties/C10.v, 12 "
+             "statements, closed under the global context, for every state / operation / history and any id_spec callable): "
+             "delete removes exactly the named rows and exactly the relations mentioning them, keeps the order of the rest, "
+             "the duplicates table and all counters; update with no features changes nothing; with make_backup the .bak is "
+             "the complete pre-operation state for EVERY update - every strategy and every position at which the feature "
+             "source may fail - and every delete, and is left alone otherwise; a failing source or a failing populate leaves "
+             "the file untouched; reopen preserves the content and reloads the persisted counters; primary keys stay unique "
+             "through every history (induction over the operation list: a generated key never equals a stored one); the "
+             "first id-less feature of an update is stored under <featuretype>_(live counter+1). Tied to interface.py/"
+             "create.py by every history up to length 3 (thorough 4) over a 12-operation alphabet plus 500 random "
+             "histories up to length 8, on file databases, comparing after EVERY step the four tables (fresh connection), "
+             "the in-memory counters, the .bak content and the outcome class inside Coq.",
+        note="Trusted: Coq kernel + vm_compute; Model/Machine.v and Model/Import.v hand-written, tied by the correspondence; "
+             "sqlite transaction behaviour (an exception during update rolls back the creator's uncommitted connection once it "
+             "is garbage collected) is modelled as 'disk unchanged' and checked by reading the file through a fresh "
+             "connection after gc. GFF3-dialect databases only; add_relation without parent_func/child_func; in-memory "
+             "counters after a failed update follow the code (advanced, not persisted). The monotonicity of the persisted "
+             "counters over whole histories is decided by the correspondence, not yet a theorem. Finding F20 (mid-import "
+             "commit in _add_duplicate made failed 'merge' updates half-applied) was found by this check and fixed in /repo.",
+        technique="Coq proof of the machine laws (per-step characterisations, invariants by induction over histories) + exhaustive small-scope differential correspondence over operation histories (the refinement itself)",
+        design="4 (C10)"),
     "C11": dict(
         text="Coq theorems (Properties/C11.v, 13 statements, closed under the global context) about the model of "
              "make_query's featuretype/strand/ORDER BY handling: the result contains exactly the matching stored rows, each once; "
